@@ -215,6 +215,7 @@ def run(tier, seed):
     states = model_cases(chk)
     chk.notes['model_cases'] = len(states)
     own = []
+    resent = []
     nbad = 0
     # ---- spec -> code
     for i, st in enumerate(states):
@@ -236,6 +237,16 @@ def run(tier, seed):
                               dict(kind='spec->code parse', module='c03', m=repr(m), le=c['le'], raw=list(raw),
                                    recovered=repr(got), expected=repr(want)))
         chk.traces += 1
+        # (a') serialise the parsed message again with the sender stamped, as the bus does before forwarding
+        if i % 3 == 0 and 'exception' not in got:
+            try:
+                pm.sender = ':1.77'
+                pm._marshal(False)
+                resent.append(({'c': {'orig': tuple(raw), 'sender': tuple(b':1.77')}, 'raw': tuple(pm.rawMessage),
+                                'rec': {}, 'ser': {}}, m))
+            except Exception as ex:
+                chk.violation('serialising a parsed message (type %d, le=%s) again raised %s' % (m['type'], c['le'], type(ex).__name__),
+                              dict(kind='exception', module='c03', m=repr(m), raw=list(raw), trace=core.traceback_str()))
         # (b) construct it through the public constructors; TLC judges the bytes (TraceOwn)
         if c['le'] and c['sigpos'] == 0 and constructible(m):
             try:
@@ -292,7 +303,8 @@ def run(tier, seed):
         chk.violation('constructor raised %s for a message carrying descriptors' % type(ex).__name__,
                       dict(kind='exception', module='c03', trace=core.traceback_str()))
     cc = 'CONSTANTS\n MTypes = {1}\n'
-    for label, batch, pred in (('constructed', own, 'TraceOwn'), ('parsed', parse_tr, 'TraceParse')):
+    for label, batch, pred in (('constructed', own, 'TraceOwn'), ('parsed', parse_tr, 'TraceParse'),
+                               ('parsed and serialised again', resent, 'TraceResent')):
         traces = [[({'n': 'Init'}, st)] for st, _ in batch]
         rej, stt = core.validate_traces('MC_Message', OBS, traces, {}, cfg_consts=cc, initpred=pred, nproc=12,
                                         timeout=900)
@@ -335,6 +347,28 @@ def run(tier, seed):
     chk.transitions += stt['transitions']
     for ti, _, _ in rej[:3]:
         chk.violation('size limit: %r' % (lim_tr[ti],), dict(kind='code->spec', module='c03', case=lim_tr[ti]))
+    # names: a string that is legal in one role (and was just used in it) is still refused in the roles whose
+    # grammar excludes it - verdicts judged by Validators.tla, as in C18 but after the string has a history
+    from . import c18
+    ntr, ntexts = [], []
+    for cls in (':D.D', 'L-L.L', 'L.D', 'L.L', '/L', '/L/L', 'L', 'U.U-', ':L.L', 'L.L.', ':D', 'L/L.L'):
+        cls = tuple(cls)
+        text = c18.instantiate(cls, len(ntr))
+        for k in range(4):
+            c18.via_ctors(text, k)                 # uses the string in every role, whatever comes of it
+        c18.direct(text)
+        got = c18.via_ctors(text, len(ntr) % 4)
+        ntr.append([({'n': 'Init'}, {'s': cls, 'v': got})])
+        ntexts.append(text)
+    ncc = 'CONSTANTS\n MaxLen = 1\n Classes = {"L", "D", "U", ".", "-", ":", "/", "X", "O"}\n'
+    rej, stt = core.validate_traces('Validators', c18.OBS, ntr, {}, cfg_consts=ncc, initpred='TraceInit', nproc=2)
+    chk.states += stt['states']
+    chk.transitions += stt['transitions']
+    chk.traces += len(ntr) - len(rej)
+    for ti, _, _ in rej[:3]:
+        chk.violation('a message naming %r could be constructed (or was refused) against the grammar after the string had been '
+                      'used in other roles: %r' % (ntexts[ti], ntr[ti][0][1]['v']),
+                      dict(kind='code->spec names', module='c03', text=ntexts[ti], verdicts=ntr[ti][0][1]['v']))
     # reserved path
     try:
         message.MethodCallMessage('/org/freedesktop/DBus/Local', 'M')
